@@ -352,9 +352,6 @@ def replay_edges(binp, name, workdir, sample_lines_target, seed, tag=""):
 
 # ---------------------------------------------------------------------------------------------
 # per-property plans
-FLOW = dict(mc_q=["flow_q"], mc_t=["flow_t", "flow_treasury_t"], emit_q=["flow_q"], emit_t=["flow_t"])
-IBC = dict(mc_q=["ibc_q"], mc_t=["ibc_t"], emit_q=["ibc_q"], emit_t=["ibc_t"])
-GATE = dict(mc_q=["gate_q"], mc_t=["gate_t"], emit_q=["gate_q"], emit_t=["gate_t"])
 
 
 def plan(mc_q, mc_t, emit_q, emit_t, walks_q, walks_t, reach=(), scen=(), wide=None):
@@ -365,30 +362,39 @@ def plan(mc_q, mc_t, emit_q, emit_t, walks_q, walks_t, reach=(), scen=(), wide=N
 
 W_Q = [("honest", 8, 60), ("chaos", 10, 60), ("admin", 6, 60)]
 W_T = [("honest", 120, 70), ("chaos", 160, 70), ("admin", 80, 70)]
+# thorough tier: model checking of the larger focused configurations (MC only where a configuration has too many
+# transitions to replay in minutes) and replay of the medium ones
+FLOW_MC = ["flow_long_t", "flow_amounts_t", "flow_t", "flow_treasury_t", "flow_extras_t", "flow_time_t", "flow_resume_t"]
+FLOW_EMIT = ["flow_t", "flow_extras_t", "flow_time_t"]
+IBC_MC = ["ibc_t", "ibc2_t"]
+IBC_EMIT = ["ibc2_t"]
+GATE_MC = ["gate_t", "gateadmin_t"]
+GATE_EMIT = ["gate_q", "gateadmin_t"]
 PLANS = {
-    "C01": plan(["flow_q", "ibc_q"], ["flow_t", "ibc_t", "flow_treasury_t"], ["flow_q", "ibc_q"], ["flow_t", "ibc_t"], W_Q, W_T, reach=["HonestOutstanding"]),
-    "C02": plan(["flow_q", "ibc_q", "fees_q"], ["flow_t", "ibc_t", "flow_treasury_t", "fees_t"], ["flow_treasury_q", "fees_q", "ibc_q"],
-                ["flow_t", "ibc_t", "flow_treasury_t", "fees_t"], W_Q, W_T, reach=["Received"]),
-    "C03": plan(["flow_q", "ibc_q"], ["flow_t", "ibc_t"], ["flow_q", "ibc_q"], ["flow_t", "ibc_t"], W_Q, W_T),
-    "C04": plan(["flow_q"], ["flow_t"], ["flow_q"], ["flow_t"], W_Q, W_T),
-    "C05": plan(["flow_q"], ["flow_t"], ["flow_q"], ["flow_t"], W_Q, W_T, reach=["Received"]),
-    "C06": plan(["flow_q"], ["flow_t"], ["flow_q"], ["flow_t"], W_Q, W_T, reach=["Received"]),
-    "C07": plan(["ibc_q"], ["ibc_t"], ["ibc_q"], ["ibc_t"], W_Q, W_T, reach=["Refundable"]),
-    "C08": plan(["gate_q", "own"], ["gate_t", "own_t"], ["gate_q", "own"], ["gate_t", "own_t"], W_Q, W_T),
-    "C09": plan(["gate_q"], ["gate_t"], ["gate_q"], ["gate_t"], W_Q, W_T, scen=["C09"]),
-    "C10": plan(["gate_q"], ["gate_t"], ["gate_q"], ["gate_t"], W_Q, W_T),
-    "C11": plan(["flow_q", "flow_treasury_q", "fees_q", "fee150_q"], ["flow_t", "flow_treasury_t", "fees_t", "fee150_q"],
+    "C01": plan(["flow_q", "ibc_q"], FLOW_MC + IBC_MC, ["flow_q", "ibc_q"], FLOW_EMIT + IBC_EMIT, W_Q, W_T, reach=["HonestOutstanding"]),
+    "C02": plan(["flow_q", "ibc_q", "fees_q"], FLOW_MC + IBC_MC + ["fees_t"], ["flow_treasury_q", "fees_q", "ibc_q"],
+                ["flow_t", "flow_treasury_t", "fees_t"] + IBC_EMIT, W_Q, W_T, reach=["Received"]),
+    "C03": plan(["flow_q", "ibc_q"], FLOW_MC + IBC_MC, ["flow_q", "ibc_q"], FLOW_EMIT + IBC_EMIT, W_Q, W_T),
+    "C04": plan(["flow_q"], FLOW_MC, ["flow_q"], ["flow_extras_t", "flow_t"], W_Q, W_T),
+    "C05": plan(["flow_q"], FLOW_MC, ["flow_q"], FLOW_EMIT, W_Q, W_T, reach=["Received"]),
+    "C06": plan(["flow_q"], FLOW_MC, ["flow_q"], FLOW_EMIT, W_Q, W_T, reach=["Received"]),
+    "C07": plan(["ibc_q"], IBC_MC, ["ibc_q"], IBC_EMIT + ["ibc_q"], W_Q, W_T, reach=["Refundable"]),
+    "C08": plan(["gate_q", "own"], GATE_MC + ["own_t"], ["gate_q", "own"], GATE_EMIT + ["own_t"], W_Q, W_T),
+    "C09": plan(["gate_q"], GATE_MC, ["gate_q"], GATE_EMIT, W_Q, W_T, scen=["C09"]),
+    "C10": plan(["gate_q"], GATE_MC, ["gate_q"], GATE_EMIT, W_Q, W_T),
+    "C11": plan(["flow_q", "flow_treasury_q", "fees_q", "fee150_q"], ["flow_t", "flow_treasury_t", "flow_amounts_t", "fees_t", "fee150_q"],
                 ["flow_treasury_q", "fees_q", "fee150_q"], ["flow_t", "flow_treasury_t", "fees_t", "fee150_q"], W_Q, W_T),
     "C12": plan(["own"], ["own_t"], ["own"], ["own_t"], [("admin", 10, 60)], [("admin", 150, 70)]),
     "C13": plan(["treasury_q"], ["treasury_t"], ["treasury_q"], ["treasury_t"], [], []),
-    "C16": plan(["flow_q", "gate_q"], ["flow_t", "ibc_t", "gate_t"], ["flow_treasury_q", "ibc_q", "gate_q", "own", "treasury_q"],
-                ["flow_t", "flow_treasury_t", "ibc_t", "gate_t", "own_t", "treasury_t"], W_Q, W_T,
+    "C14": plan(["gate_q"], ["gateadmin_t"], [], ["gateadmin_t"], [("admin", 8, 60)], [("admin", 100, 70)]),
+    "C15": plan(["flow_q", "flow_treasury_q"], ["flow_t", "flow_treasury_t", "flow_amounts_t", "flow_resume_t"], ["flow_q", "flow_treasury_q"],
+                ["flow_t", "flow_treasury_t", "flow_extras_t"], W_Q, W_T),
+    "C16": plan(["flow_q", "gate_q"], FLOW_MC + IBC_MC + GATE_MC, ["flow_treasury_q", "ibc_q", "gate_q", "own", "treasury_q"],
+                ["flow_t", "flow_treasury_t", "flow_extras_t", "ibc2_t", "gate_q", "gateadmin_t", "own_t", "treasury_q"], W_Q, W_T,
                 wide={"quick": [(30, 60, 0), (30, 60, 1)], "thorough": [(400, 80, 0), (400, 80, 1)]}),
     "C17": plan(["flow_q"], ["flow_t"], [], [], [("chaos", 6, 60)], [("chaos", 60, 70)]),
-    "C18": plan(["ibc_q"], ["ibc_t"], [], [], [], [], scen=["C18"]),
+    "C18": plan(["ibc_q"], IBC_MC, [], [], [], [], scen=["C18"]),
     "C19": plan(["flow_q"], ["flow_t"], ["flow_q"], ["flow_t"], [("chaos", 8, 60)], [("chaos", 100, 70)]),
-    "C14": plan(["gate_q"], ["gate_t"], [], [], [("admin", 8, 60)], [("admin", 100, 70)]),
-    "C15": plan(["flow_q", "flow_treasury_q"], ["flow_t", "flow_treasury_t"], ["flow_q", "flow_treasury_q"], ["flow_t", "flow_treasury_t"], W_Q, W_T),
 }
 LEVEL = "model_checking"
 
